@@ -12,7 +12,7 @@ mkdir -p build/bin evidence replay
   && coq_makefile -f _CoqProject -o Makefile && timeout 3000 make -j16 >/dev/null)
 # extracted model + driver
 mkdir -p build/ocaml && cp coq/model.ml coq/model.mli ocaml/*.ml build/ocaml/ \
-  && (cd build/ocaml && ocamlfind ocamlopt -O3 -unsafe -inline 100 -w -a model.mli model.ml util.ml main.ml -o wsmodel && rm -f stamp)
+  && (cd build/ocaml && ocamlfind ocamlopt -package unix -linkpkg -O3 -unsafe -inline 100 -w -a model.mli model.ml util.ml main.ml -o wsmodel && rm -f stamp)
 # harness against /repo's working tree (warms the Go build cache)
 cp "${VERIF_REPO:-/repo}/go.sum" harness/go.sum 2>/dev/null || true
 (cd harness && go build -tags verif -o ../build/bin/wsharness .)
